@@ -1,3 +1,3 @@
 SPECIFICATION Spec
-CONSTANT Bug = "none"
+CONSTANT Bug = "cmdOnly"
 CHECK_DEADLOCK FALSE
